@@ -334,4 +334,767 @@ example : (alignedPwrite 4 true [1,2,3,4,5,6,7,8,9,10] 9 [90,91,92] [7,7,7,7]).2
 example : (linearPread 3 [[1,2,3],[4,5,6],[7,8,9]] 2 5).1 = some [3,4,5,6,7] := by decide
 example : (stripePread 2 [[1,2,5,6],[3,4,7,8]] 2 1 6).1 = some [2,3,4,5,6,7] := by decide
 
+
+/-! ### writes: the alignment adaptor, the fixed-size linear composite and the stripe composite -/
+
+theorem get_extend (f : Bytes) (n i : Nat) :
+    (extend f n)[i]? = if i < f.length then f[i]? else if i < n then some 0 else none := by
+  unfold extend
+  rw [List.getElem?_append]
+  split
+  · rfl
+  · rw [List.getElem?_replicate]
+    split <;> split <;> first | rfl | omega
+
+theorem extend_length (f : Bytes) (n : Nat) : (extend f n).length = max f.length n := by
+  unfold extend; simp; omega
+
+theorem get_pread (f : Bytes) (off cnt i : Nat) : (pread f off cnt)[i]? = if i < cnt then f[off + i]? else none := by
+  unfold pread
+  rw [List.getElem?_take]
+  split
+  · rw [List.getElem?_drop]
+  · rfl
+
+theorem blit_length (buf d : Bytes) (pos : Nat) (h : pos + d.length ≤ buf.length) : (blit buf pos d).length = buf.length := by
+  unfold blit; simp; omega
+
+theorem get_blit (buf d : Bytes) (pos i : Nat) (h : pos + d.length ≤ buf.length) :
+    (blit buf pos d)[i]? = if i < pos then buf[i]? else if i < pos + d.length then d[i - pos]? else buf[i]? := by
+  unfold blit
+  simp only [List.getElem?_append, List.length_append, List.length_take, List.getElem?_take, List.getElem?_drop]
+  have e1 : min pos buf.length = pos := by omega
+  rw [e1]
+  by_cases h1 : i < pos
+  · have : i < pos + d.length := by omega
+    simp [h1, this]
+  · by_cases h2 : i < pos + d.length
+    · simp [h1, h2]
+    · simp only [h1, h2, if_false]
+      congr 1; omega
+
+theorem get_pwrite (f d : Bytes) (off i : Nat) :
+    (pwrite f off d)[i]? =
+      if i < off then (if i < f.length then f[i]? else some 0)
+      else if i < off + d.length then d[i - off]? else f[i]? := by
+  unfold pwrite
+  simp only [List.getElem?_append, List.length_append, List.length_take, extend_length, List.getElem?_take,
+    List.getElem?_drop, get_extend]
+  have e1 : min off (max f.length (off + d.length)) = off := by omega
+  rw [e1]
+  by_cases h1 : i < off
+  · have : i < off + d.length := by omega
+    simp only [h1, if_true, this]
+  · simp only [h1, if_false]
+    by_cases h2 : i < off + d.length
+    · simp only [h2, if_true]
+    · simp only [h2, if_false]
+      have e2 : off + d.length + (i - (off + d.length)) = i := by omega
+      rw [e2]
+      split
+      · rfl
+      · rename_i h3
+        rw [List.getElem?_eq_none (by omega)]
+
+theorem pwrite_length (f d : Bytes) (off : Nat) : (pwrite f off d).length = max f.length (off + d.length) := by
+  unfold pwrite; simp [extend_length]; omega
+
+theorem get_ftruncate (f : Bytes) (n i : Nat) :
+    (ftruncate f n)[i]? = if i < n then (if i < f.length then f[i]? else some 0) else none := by
+  unfold ftruncate
+  rw [List.getElem?_take]
+  split
+  · rw [get_extend]
+    split
+    · rfl
+    · rename_i h1 h2; simp [h1]
+  · rfl
+
+def firstBlock (A ab : Nat) (f : Bytes) : Bytes := pread f ab A ++ List.replicate (A - (pread f ab A).length) 0
+def buf1 (A ab br : Nat) (f junk : Bytes) : Bytes := if br > 0 then blit junk 0 (firstBlock A ab f) else junk
+def buf2 (A ab ae : Nat) (lrc : Bool) (f b1 : Bytes) : Bytes := if lrc then blit b1 (ae - A - ab) (pread f (ae - A) A) else b1
+
+theorem firstBlock_length (A ab : Nat) (f : Bytes) : (firstBlock A ab f).length = A := by
+  simp [firstBlock, pread_length]; omega
+
+theorem get_firstBlock (A ab : Nat) (f : Bytes) (j : Nat) :
+    (firstBlock A ab f)[j]? = if j < A then (if ab + j < f.length then f[ab + j]? else some 0) else none := by
+  unfold firstBlock
+  rw [List.getElem?_append, pread_length, get_pread, List.getElem?_replicate]
+  by_cases h1 : j < A
+  · by_cases h2 : ab + j < f.length
+    · have : j < min A (f.length - ab) := by omega
+      simp [h1, h2, this]
+    · have : ¬ j < min A (f.length - ab) := by omega
+      simp only [this, if_false, h1, if_true, h2]
+      have : j - min A (f.length - ab) < A - min A (f.length - ab) := by omega
+      simp [this]
+  · have : ¬ j < min A (f.length - ab) := by omega
+    simp only [this, if_false, h1]
+    have : ¬ (j - min A (f.length - ab) < A - min A (f.length - ab)) := by omega
+    simp [this]
+
+theorem buf1_length (A ab br : Nat) (f junk : Bytes) (h : A ≤ junk.length) : (buf1 A ab br f junk).length = junk.length := by
+  unfold buf1; split
+  · rw [blit_length]; rw [firstBlock_length]; omega
+  · rfl
+
+theorem get_buf1 (A ab br : Nat) (f junk : Bytes) (h : A ≤ junk.length) (j : Nat) :
+    (buf1 A ab br f junk)[j]? = if br > 0 ∧ j < A then (if ab + j < f.length then f[ab + j]? else some 0) else junk[j]? := by
+  unfold buf1
+  by_cases hb : br > 0
+  · rw [if_pos hb, get_blit _ _ _ _ (by rw [firstBlock_length]; omega), firstBlock_length]
+    by_cases hj : j < A
+    · have h0 : ¬ j < 0 := by omega
+      have h1 : j < 0 + A := by omega
+      simp only [h0, if_false, h1, if_true, Nat.sub_zero, get_firstBlock, hj, hb, and_self]
+    · have h0 : ¬ j < 0 := by omega
+      have h1 : ¬ j < 0 + A := by omega
+      simp [h0, h1, hj]
+  · rw [if_neg hb]; simp [hb]
+
+theorem buf2_length (A ab ae : Nat) (lrc : Bool) (f b1 : Bytes) (h : ae - A - ab + A ≤ b1.length) : (buf2 A ab ae lrc f b1).length = b1.length := by
+  unfold buf2; split
+  · rw [blit_length]; rw [pread_length]; omega
+  · rfl
+
+theorem get_buf2 (A ab ae : Nat) (lrc : Bool) (f b1 : Bytes) (h : ae - A - ab + A ≤ b1.length) (j : Nat) :
+    (buf2 A ab ae lrc f b1)[j]? =
+      if lrc = true ∧ ae - A - ab ≤ j ∧ j < ae - A - ab + min A (f.length - (ae - A)) then f[ae - A + (j - (ae - A - ab))]? else b1[j]? := by
+  unfold buf2
+  by_cases hl : lrc = true
+  · rw [if_pos hl, get_blit _ _ _ _ (by rw [pread_length]; omega), pread_length, get_pread]
+    by_cases h1 : j < ae - A - ab
+    · have : ¬ (ae - A - ab ≤ j) := by omega
+      simp [h1, this]
+    · by_cases h2 : j < ae - A - ab + min A (f.length - (ae - A))
+      · have : j - (ae - A - ab) < A := by omega
+        simp [h1, h2, hl, this]; omega
+      · simp [h1, h2]
+  · rw [if_neg hl]; simp [hl]
+
+theorem dvd_lt_two (A x : Nat) (hd : A ∣ x) (h0 : 0 < x) (h2 : x < 2 * A) : x = A := by
+  obtain ⟨k, hk⟩ := hd
+  subst hk
+  have hk1 : k ≥ 1 := by
+    cases k with
+    | zero => simp at h0
+    | succ k => omega
+  have hk2 : k < 2 := by
+    by_cases h : k < 2
+    · exact h
+    · have : 2 ≤ k := by omega
+      have := Nat.mul_le_mul_left A this
+      omega
+  have : k = 1 := by omega
+  subst this; simp
+
+theorem aend_dvd (A off cnt : Nat) : A ∣ alignedEnd A off cnt := by
+  unfold alignedEnd; exact Nat.dvd_mul_left _ _
+
+theorem aend_bounds (A off cnt : Nat) (hA : 0 < A) : off + cnt ≤ alignedEnd A off cnt ∧ alignedEnd A off cnt < off + cnt + A := by
+  refine ⟨le_alignedEnd A off cnt hA, ?_⟩
+  unfold alignedEnd
+  have h1 := Nat.div_add_mod (off + cnt + A - 1) A
+  rw [Nat.mul_comm] at h1
+  omega
+
+theorem aend_cases (A off cnt : Nat) (hA : 0 < A) :
+    ((off + cnt) % A = 0 → alignedEnd A off cnt = off + cnt) ∧
+    ((off + cnt) % A > 0 → alignedEnd A off cnt + (off + cnt) % A = off + cnt + A) := by
+  have hb := aend_bounds A off cnt hA
+  have hd := aend_dvd A off cnt
+  have hn := Nat.div_add_mod (off + cnt) A
+  have hr := Nat.mod_lt (off + cnt) hA
+  constructor
+  · intro h0
+    have hdn : A ∣ off + cnt := Nat.dvd_of_mod_eq_zero h0
+    have : A ∣ alignedEnd A off cnt - (off + cnt) := Nat.dvd_sub hd hdn
+    have := Nat.eq_zero_of_dvd_of_lt this (by omega)
+    omega
+  · intro hpos
+    have hdn : A ∣ (off + cnt) - (off + cnt) % A := by
+      have : (off + cnt) - (off + cnt) % A = A * ((off + cnt) / A) := by omega
+      rw [this]; exact Nat.dvd_mul_right _ _
+    have h3 : A ∣ alignedEnd A off cnt - ((off + cnt) - (off + cnt) % A) := Nat.dvd_sub hd hdn
+    have := dvd_lt_two A _ h3 (by omega) (by omega)
+    omega
+
+theorem abegin_facts (A off : Nat) (hA : 0 < A) : alignedBegin A off + off % A = off ∧ off % A < A ∧ A ∣ alignedBegin A off :=
+  ⟨alignedBegin_add A off, Nat.mod_lt off hA, by unfold alignedBegin; exact Nat.dvd_mul_left _ _⟩
+
+def pwCore (A ab ae br : Nat) (lrc : Bool) (f : Bytes) (off : Nat) (d junk : Bytes) : Bytes :=
+  let b3 := blit (buf2 A ab ae lrc f (buf1 A ab br f junk)) br d
+  let f1 := pwrite f ab (b3.take (ae - ab))
+  let suppose := if off + d.length > f.length then off + d.length else f.length
+  if suppose < ab + (ae - ab) then ftruncate f1 suppose else f1
+
+theorem pwCore_spec (A ab ae br : Nat) (lrc : Bool) (f : Bytes) (off : Nat) (d junk : Bytes)
+    (hA : 0 < A) (hc : 0 < d.length) (hab : ab + br = off) (hbr : br < A) (hbe : ab + A ≤ ae)
+    (he1 : off + d.length ≤ ae) (he2 : ae < off + d.length + A) (hj : junk.length = ae - ab)
+    (hm : ae = ab + A ∨ ab + 2 * A ≤ ae)
+    (hl : lrc = true ↔ (f.length > off + d.length ∧ off + d.length < ae ∧ ¬ (ae = ab + A ∧ br > 0))) :
+    pwCore A ab ae br lrc f off d junk = pwrite f off d := by
+  have hjA : A ≤ junk.length := by omega
+  have l1 : (buf1 A ab br f junk).length = ae - ab := by rw [buf1_length _ _ _ _ _ hjA, hj]
+  have hb2 : ae - A - ab + A ≤ (buf1 A ab br f junk).length := by rw [l1]; omega
+  have l2 : (buf2 A ab ae lrc f (buf1 A ab br f junk)).length = ae - ab := by rw [buf2_length _ _ _ _ _ _ hb2, l1]
+  have hb3 : br + d.length ≤ (buf2 A ab ae lrc f (buf1 A ab br f junk)).length := by rw [l2]; omega
+  have l3 : (blit (buf2 A ab ae lrc f (buf1 A ab br f junk)) br d).length = ae - ab := by rw [blit_length _ _ _ hb3, l2]
+  unfold pwCore
+  simp only []
+  rw [List.take_of_length_le (by rw [l3]; exact Nat.le_refl _)]
+  have e1 : ab + (ae - ab) = ae := by omega
+  rw [e1]
+  apply List.ext_getElem?
+  intro i
+  -- the buffer at position j
+  have g3 : ∀ j, (blit (buf2 A ab ae lrc f (buf1 A ab br f junk)) br d)[j]? =
+      if j < br then (buf2 A ab ae lrc f (buf1 A ab br f junk))[j]? else if j < br + d.length then d[j - br]?
+      else (buf2 A ab ae lrc f (buf1 A ab br f junk))[j]? := fun j => get_blit _ _ _ _ hb3
+  have g2 := get_buf2 A ab ae lrc f (buf1 A ab br f junk) hb2
+  have g1 := get_buf1 A ab br f junk hjA
+  -- f1 at position i
+  have gf1 : (pwrite f ab (blit (buf2 A ab ae lrc f (buf1 A ab br f junk)) br d))[i]? =
+      if i < ab then (if i < f.length then f[i]? else some 0)
+      else if i < ae then (blit (buf2 A ab ae lrc f (buf1 A ab br f junk)) br d)[i - ab]? else f[i]? := by
+    rw [get_pwrite, l3, e1]
+  have lf1 : (pwrite f ab (blit (buf2 A ab ae lrc f (buf1 A ab br f junk)) br d)).length = max f.length ae := by
+    rw [pwrite_length, l3, e1]
+  rw [get_pwrite]
+  have hS : (if off + d.length > f.length then off + d.length else f.length) = max f.length (off + d.length) := by
+    split <;> omega
+  rw [hS]
+  -- value of the bounce buffer at the positions of the four regions of [ab, ae)
+  have tailv : ∀ j, br + d.length ≤ j → j < ae - ab → (blit (buf2 A ab ae lrc f (buf1 A ab br f junk)) br d)[j]? = (buf2 A ab ae lrc f (buf1 A ab br f junk))[j]? := by
+    intro j h1 _
+    rw [g3]; rw [if_neg (by omega), if_neg (by omega)]
+  by_cases r1 : i < ab
+  · -- below the first block: untouched (zero-filled if the file was shorter)
+    have hio : i < off := by omega
+    rw [if_pos hio]
+    by_cases ht : max f.length (off + d.length) < ae
+    · rw [if_pos ht, get_ftruncate, lf1, gf1, if_pos (by omega), if_pos (by omega), if_pos r1]
+    · rw [if_neg ht, gf1, if_pos r1]
+  · by_cases r2 : i < off
+    · -- the part of the first block in front of the data: br > 0, the block was read (zero-filled)
+      have hbr0 : br > 0 := by omega
+      rw [if_pos r2]
+      have hv : (blit (buf2 A ab ae lrc f (buf1 A ab br f junk)) br d)[i - ab]? = if i < f.length then f[i]? else some 0 := by
+        rw [g3, if_pos (by omega), g2]
+        have hno : ¬ (lrc = true ∧ ae - A - ab ≤ i - ab ∧ i - ab < ae - A - ab + min A (f.length - (ae - A))) := by
+          intro ⟨hl1, h2, _⟩
+          have := hl.1 hl1
+          by_cases hs : ae = ab + A
+          · exact this.2.2 ⟨hs, hbr0⟩
+          · omega
+        rw [if_neg hno, g1, if_pos ⟨hbr0, by omega⟩]
+        have : ab + (i - ab) = i := by omega
+        rw [this]
+      by_cases ht : max f.length (off + d.length) < ae
+      · rw [if_pos ht, get_ftruncate, lf1, gf1, if_pos (by omega), if_pos (by omega), if_neg r1, if_pos (by omega), hv]
+      · rw [if_neg ht, gf1, if_neg r1, if_pos (by omega), hv]
+    · rw [if_neg r2]
+      by_cases r3 : i < off + d.length
+      · -- the data
+        rw [if_pos r3]
+        have hv : (blit (buf2 A ab ae lrc f (buf1 A ab br f junk)) br d)[i - ab]? = d[i - off]? := by
+          rw [g3, if_neg (by omega), if_pos (by omega)]
+          congr 1; omega
+        by_cases ht : max f.length (off + d.length) < ae
+        · rw [if_pos ht, get_ftruncate, lf1, gf1, if_pos (by omega), if_pos (by omega), if_neg r1, if_pos (by omega), hv]
+        · rw [if_neg ht, gf1, if_neg r1, if_pos (by omega), hv]
+      · rw [if_neg r3]
+        by_cases r4 : i < ae
+        · -- the rest of the last block
+          have hv0 := tailv (i - ab) (by omega) (by omega)
+          by_cases hlr : lrc = true
+          · -- it was read from the file
+            have hfacts := hl.1 hlr
+            by_cases hif : i < f.length
+            · have hlt : i - ab < ae - A - ab + min A (f.length - (ae - A)) := by
+                rw [Nat.min_def]; split <;> omega
+              have hv : (blit (buf2 A ab ae lrc f (buf1 A ab br f junk)) br d)[i - ab]? = f[i]? := by
+                rw [hv0, g2, if_pos ⟨hlr, by omega, hlt⟩]
+                congr 1; omega
+              by_cases ht : max f.length (off + d.length) < ae
+              · rw [if_pos ht, get_ftruncate, lf1, gf1, if_pos (by omega), if_pos (by omega), if_neg r1, if_pos r4, hv]
+              · rw [if_neg ht, gf1, if_neg r1, if_pos r4, hv]
+            · -- beyond the end of the file: cut off again
+              have ht : max f.length (off + d.length) < ae := by omega
+              rw [if_pos ht, get_ftruncate, if_neg (by omega), List.getElem?_eq_none (by omega)]
+          · -- it was not read
+            have hnl : ¬ (f.length > off + d.length ∧ off + d.length < ae ∧ ¬ (ae = ab + A ∧ br > 0)) := fun h => hlr (hl.2 h)
+            by_cases hfl : f.length > off + d.length
+            · -- single block whose head was read: the whole block came from the file
+              have hsm : ae = ab + A ∧ br > 0 := by
+                by_cases hs : ae = ab + A ∧ br > 0
+                · exact hs
+                · exact absurd ⟨hfl, by omega, hs⟩ hnl
+              have hv : (blit (buf2 A ab ae lrc f (buf1 A ab br f junk)) br d)[i - ab]? = if i < f.length then f[i]? else some 0 := by
+                rw [hv0, g2, if_neg (fun h => hlr h.1), g1, if_pos ⟨hsm.2, by omega⟩]
+                have : ab + (i - ab) = i := by omega
+                rw [this]
+              by_cases ht : max f.length (off + d.length) < ae
+              · rw [if_pos ht, get_ftruncate, lf1, gf1]
+                by_cases hif : i < f.length
+                · rw [if_pos (by omega), if_pos (by omega), if_neg r1, if_pos r4, hv, if_pos hif]
+                · rw [if_neg (by omega), List.getElem?_eq_none (by omega)]
+              · rw [if_neg ht, gf1, if_neg r1, if_pos r4, hv, if_pos (by omega)]
+            · -- nothing of the file follows the data: whatever is in the buffer is cut off
+              have ht : max f.length (off + d.length) < ae := by omega
+              rw [if_pos ht, get_ftruncate, if_neg (by omega), List.getElem?_eq_none (by omega)]
+        · -- behind the last block: untouched
+          by_cases ht : max f.length (off + d.length) < ae
+          · rw [if_pos ht, get_ftruncate, if_neg (by omega), List.getElem?_eq_none (by omega)]
+          · rw [if_neg ht, gf1, if_neg r1, if_neg r4]
+
+theorem small_first_iff (A off cnt : Nat) (hA : 0 < A) :
+    (off / A + 1 = (off + cnt + A - 1) / A) ↔ alignedEnd A off cnt = alignedBegin A off + A := by
+  unfold alignedEnd alignedBegin
+  constructor
+  · intro h; rw [← h, Nat.add_mul, Nat.one_mul]
+  · intro h
+    have : (off + cnt + A - 1) / A * A = (off / A + 1) * A := by rw [Nat.add_mul, Nat.one_mul]; exact h
+    exact (Nat.eq_of_mul_eq_mul_right hA this).symm
+
+theorem lastReadCond_iff (A off cnt fs : Nat) (hA : 0 < A) :
+    lastReadCond A off cnt fs = true ↔
+      (fs > off + cnt ∧ off + cnt < alignedEnd A off cnt ∧ ¬ (alignedEnd A off cnt = alignedBegin A off + A ∧ off % A > 0)) := by
+  have hc := aend_cases A off cnt hA
+  have hr := Nat.mod_lt (off + cnt) hA
+  have hb := aend_bounds A off cnt hA
+  have hs := small_first_iff A off cnt hA
+  have hle := Nat.mod_le (off + cnt) A
+  unfold lastReadCond smallNote
+  simp only [Bool.and_eq_true, Bool.not_eq_true', Bool.and_eq_false_iff, decide_eq_true_eq, decide_eq_false_iff_not, ne_eq, Decidable.not_not]
+  constructor
+  · intro ⟨⟨h1, h2⟩, h3⟩
+    have he := hc.2 h2
+    refine ⟨by omega, by omega, ?_⟩
+    intro ⟨h4, h5⟩
+    rcases h1 with (h1 | h1) | h1
+    · exact h1 (hs.2 h4)
+    · omega
+    · omega
+  · intro ⟨h1, h2, h3⟩
+    have hpos : (off + cnt) % A > 0 := by
+      by_cases h0 : (off + cnt) % A = 0
+      · have := hc.1 h0; omega
+      · omega
+    have he := hc.2 hpos
+    refine ⟨⟨?_, hpos⟩, by omega⟩
+    by_cases h4 : off / A + 1 = (off + cnt + A - 1) / A
+    · by_cases h5 : off % A = 0
+      · exact Or.inl (Or.inr h5)
+      · exact absurd ⟨hs.1 h4, by omega⟩ h3
+    · exact Or.inl (Or.inl h4)
+
+/-- **C16, writes through the alignment adaptor.** For every alignment, file content, offset and non-empty data (and whatever
+    the freshly allocated bounce buffer contains), `AlignedFileAdaptor::pwrite` on the bounce-buffer path — read-modify-write of
+    the first and of the last block, one aligned write, truncation back to the logical size — and on the direct path leaves
+    exactly the file that the plain `pwrite` leaves, and reports the full count. -/
+theorem C16_aligned_pwrite (A : Nat) (hA : 0 < A) (memOk : Bool) (f d junk : Bytes) (off : Nat) (hd : 0 < d.length)
+    (hj : junk.length = alignedEnd A off d.length - alignedBegin A off) :
+    (alignedPwrite A memOk f off d junk).1 = some d.length ∧ (alignedPwrite A memOk f off d junk).2.1 = pwrite f off d := by
+  unfold alignedPwrite
+  have hne : ¬ d.length = 0 := by omega
+  simp only [hne, if_false]
+  by_cases hal : (isAligned A off d.length && memOk) = true
+  · simp only [hal, if_true, and_self]
+  · simp only [hal, Bool.false_eq_true, if_false]
+    refine ⟨trivial, ?_⟩
+    have hb := aend_bounds A off d.length hA
+    have hab := abegin_facts A off hA
+    have hdv : A ∣ alignedEnd A off d.length - alignedBegin A off := Nat.dvd_sub (aend_dvd A off d.length) hab.2.2
+    have hlt : alignedBegin A off < alignedEnd A off d.length := by omega
+    obtain ⟨k, hk⟩ := hdv
+    have hk1 : k ≥ 1 := by
+      cases k with
+      | zero => simp at hk; omega
+      | succ k => omega
+    have hm : alignedEnd A off d.length = alignedBegin A off + A ∨ alignedBegin A off + 2 * A ≤ alignedEnd A off d.length := by
+      by_cases h1 : k = 1
+      · left; subst h1; simp at hk; omega
+      · right
+        have : 2 ≤ k := by omega
+        have := Nat.mul_le_mul_left A this
+        omega
+    have hbe : alignedBegin A off + A ≤ alignedEnd A off d.length := by
+      rcases hm with h | h <;> omega
+    exact pwCore_spec A (alignedBegin A off) (alignedEnd A off d.length) (off % A) (lastReadCond A off d.length f.length) f off d junk
+      hA hd hab.1 hab.2.1 hbe hb.1 hb.2 hj hm (lastReadCond_iff A off d.length f.length hA)
+
+open Photon.RangeSplit in
+theorem pwrite_nil (g : Bytes) (x : Nat) (h : x ≤ g.length) : pwrite g x [] = g := by
+  apply List.ext_getElem?
+  intro i
+  rw [get_pwrite]
+  by_cases h1 : i < x
+  · rw [if_pos h1, if_pos (by omega)]
+  · rw [if_neg h1, if_neg (by simp; omega)]
+
+theorem pwrite_adjacent (g c1 c2 : Bytes) (x : Nat) :
+    pwrite (pwrite g x c1) (x + c1.length) c2 = pwrite g x (c1 ++ c2) := by
+  apply List.ext_getElem?
+  intro i
+  have hl : (pwrite g x c1).length = max g.length (x + c1.length) := pwrite_length g c1 x
+  have I : (pwrite g x c1)[i]? = if i < x then (if i < g.length then g[i]? else some 0) else if i < x + c1.length then c1[i - x]? else g[i]? := get_pwrite g c1 x i
+  have L : (pwrite (pwrite g x c1) (x + c1.length) c2)[i]? =
+      if i < x + c1.length then (if i < (pwrite g x c1).length then (pwrite g x c1)[i]? else some 0)
+      else if i < x + c1.length + c2.length then c2[i - (x + c1.length)]? else (pwrite g x c1)[i]? := get_pwrite _ c2 _ i
+  have R : (pwrite g x (c1 ++ c2))[i]? = if i < x then (if i < g.length then g[i]? else some 0)
+      else if i < x + (c1 ++ c2).length then (c1 ++ c2)[i - x]? else g[i]? := get_pwrite g (c1 ++ c2) x i
+  rw [L, R, I, hl, List.length_append]
+  by_cases h1 : i < x
+  · have a1 : i < x + c1.length := by omega
+    have a2 : i < max g.length (x + c1.length) := by omega
+    simp only [h1, a1, a2, if_true]
+  · by_cases h2 : i < x + c1.length
+    · have a2 : i < max g.length (x + c1.length) := by omega
+      have a3 : i < x + (c1.length + c2.length) := by omega
+      have a4 : (c1 ++ c2)[i - x]? = c1[i - x]? := List.getElem?_append_left (by omega)
+      simp only [h1, h2, a2, a3, a4, if_true, if_false]
+    · by_cases h3 : i < x + c1.length + c2.length
+      · have a3 : i < x + (c1.length + c2.length) := by omega
+        have a4 : (c1 ++ c2)[i - x]? = c2[i - x - c1.length]? := List.getElem?_append_right (by omega)
+        have a5 : i - (x + c1.length) = i - x - c1.length := by omega
+        simp only [h1, h2, h3, a3, a4, a5, if_true, if_false]
+      · have a3 : ¬ i < x + (c1.length + c2.length) := by omega
+        simp only [h1, h2, h3, a3, if_false]
+
+theorem flatten_length_blocks (U : Nat) : ∀ (fs : List Bytes), (∀ b ∈ fs, b.length = U) → fs.flatten.length = fs.length * U
+  | [], _ => by simp
+  | b :: r, hU => by
+    have hb : b.length = U := hU b (by simp)
+    have := flatten_length_blocks U r (fun x hx => hU x (by simp [hx]))
+    simp only [List.flatten_cons, List.length_append, List.length_cons, this, hb, Nat.add_mul]; omega
+
+theorem pwrite_append_left (b g c : Bytes) (x : Nat) : pwrite (b ++ g) (b.length + x) c = b ++ pwrite g x c := by
+  apply List.ext_getElem?
+  intro k
+  by_cases h1 : k < b.length
+  · have R : (b ++ pwrite g x c)[k]? = b[k]? := List.getElem?_append_left h1
+    have L : (pwrite (b ++ g) (b.length + x) c)[k]? = b[k]? := by
+      rw [get_pwrite, List.length_append, if_pos (by omega), if_pos (by omega)]
+      exact List.getElem?_append_left h1
+    rw [L, R]
+  · have hk : b.length ≤ k := by omega
+    have R : (b ++ pwrite g x c)[k]? = (pwrite g x c)[k - b.length]? := List.getElem?_append_right hk
+    have G : (b ++ g)[k]? = g[k - b.length]? := List.getElem?_append_right hk
+    rw [R, get_pwrite, get_pwrite, List.length_append, G]
+    by_cases h2 : k - b.length < x
+    · have a1 : k < b.length + x := by omega
+      rw [if_pos a1, if_pos h2]
+      by_cases h3 : k - b.length < g.length
+      · have a2 : k < b.length + g.length := by omega
+        rw [if_pos a2, if_pos h3]
+      · have a2 : ¬ k < b.length + g.length := by omega
+        rw [if_neg a2, if_neg h3]
+    · have a1 : ¬ k < b.length + x := by omega
+      rw [if_neg a1, if_neg h2]
+      by_cases h3 : k - b.length < x + c.length
+      · have a2 : k < b.length + x + c.length := by omega
+        rw [if_pos a2, if_pos h3]
+        congr 1; omega
+      · have a2 : ¬ k < b.length + x + c.length := by omega
+        rw [if_neg a2, if_neg h3]
+
+theorem pwrite_append_inside (b g c : Bytes) (o : Nat) (h : o + c.length ≤ b.length) : pwrite (b ++ g) o c = pwrite b o c ++ g := by
+  apply List.ext_getElem?
+  intro k
+  have hl : (pwrite b o c).length = b.length := by rw [pwrite_length]; omega
+  by_cases h1 : k < b.length
+  · have R : (pwrite b o c ++ g)[k]? = (pwrite b o c)[k]? := List.getElem?_append_left (by rw [hl]; exact h1)
+    have G : (b ++ g)[k]? = b[k]? := List.getElem?_append_left h1
+    rw [R, get_pwrite, get_pwrite, List.length_append, G]
+    by_cases h2 : k < o
+    · rw [if_pos h2, if_pos h2, if_pos (by omega), if_pos h1]
+    · rw [if_neg h2, if_neg h2]
+  · have hk : (pwrite b o c).length ≤ k := by rw [hl]; omega
+    have R : (pwrite b o c ++ g)[k]? = g[k - b.length]? := by rw [List.getElem?_append_right hk, hl]
+    have G : (b ++ g)[k]? = g[k - b.length]? := List.getElem?_append_right (by omega)
+    rw [R, get_pwrite, if_neg (by omega), if_neg (by omega), G]
+
+/-- writing inside block `i` of equal-size blocks = writing into the concatenation -/
+theorem flatten_set_block (U : Nat) : ∀ (fs : List Bytes) (i o : Nat) (c : Bytes), (∀ b ∈ fs, b.length = U) → i < fs.length →
+    o + c.length ≤ U →
+    (fs.set i (pwrite (fs.getD i []) o c)).flatten = pwrite fs.flatten (i * U + o) c ∧
+    (∀ b ∈ fs.set i (pwrite (fs.getD i []) o c), b.length = U)
+  | [], i, o, c, _, hi, _ => by exact absurd hi (by simp)
+  | b :: fs, 0, o, c, hU, _, hoc => by
+    have hb : b.length = U := hU b (by simp)
+    constructor
+    · simp only [List.set_cons_zero, List.flatten_cons, List.getD_cons_zero, Nat.zero_mul, Nat.zero_add]
+      exact (pwrite_append_inside b fs.flatten c o (by omega)).symm
+    · intro x hx
+      simp only [List.set_cons_zero, List.mem_cons, List.getD_cons_zero] at hx
+      rcases hx with hx | hx
+      · subst hx; rw [pwrite_length]; omega
+      · exact hU x (by simp [hx])
+  | b :: fs, i + 1, o, c, hU, hi, hoc => by
+    have hb : b.length = U := hU b (by simp)
+    have hi' : i < fs.length := by simp at hi; omega
+    have ih := flatten_set_block U fs i o c (fun x hx => hU x (by simp [hx])) hi' hoc
+    constructor
+    · simp only [List.set_cons_succ, List.flatten_cons, List.getD_cons_succ]
+      rw [ih.1]
+      have e : (i + 1) * U + o = b.length + (i * U + o) := by rw [Nat.add_mul, hb]; omega
+      rw [e, pwrite_append_left]
+    · intro x hx
+      simp only [List.set_cons_succ, List.mem_cons, List.getD_cons_succ] at hx
+      rcases hx with hx | hx
+      · subst hx; exact hb
+      · exact ih.2 x hx
+
+open Photon.RangeSplit in
+/-- writing the parts of a tiling one after the other = one write of the whole data into the concatenation -/
+theorem writeParts_tiles (U : Nat) : ∀ (ps : List Sub) (fs : List Bytes) (d : Bytes) (x y : Nat),
+    Tiles U x ps y → y ≤ fs.length * U → d.length = y - x → (∀ b ∈ fs, b.length = U) →
+    (writeParts (fun j => (j, 0)) ps fs d).flatten = pwrite fs.flatten x d ∧
+    (∀ b ∈ writeParts (fun j => (j, 0)) ps fs d, b.length = U) ∧ (writeParts (fun j => (j, 0)) ps fs d).length = fs.length
+  | [], fs, d, x, y, h, hy, hd, hU => by
+    simp only [Tiles] at h; subst h
+    have : d = [] := by cases d with | nil => rfl | cons a t => simp at hd
+    subst this
+    simp only [writeParts]
+    exact ⟨(pwrite_nil _ _ (by rw [flatten_length_blocks U fs hU]; exact hy)).symm, hU, trivial⟩
+  | p :: r, fs, d, x, y, h, hy, hd, hU => by
+    simp only [Tiles] at h
+    obtain ⟨h1, h2, h3, h4⟩ := h
+    have hle := Tiles_le U r _ y h4
+    simp only [Sub.lo, Sub.hi] at h1 hle h4
+    have hi : p.i < fs.length := by
+      by_cases hc : p.i < fs.length
+      · exact hc
+      · exfalso
+        have : fs.length * U ≤ p.i * U := Nat.mul_le_mul_right U (by omega)
+        omega
+    have hc1 : (d.take p.len).length = p.len := by simp; omega
+    have hs := flatten_set_block U fs p.i p.off (d.take p.len) hU hi (by omega)
+    simp only [writeParts, Nat.zero_add]
+    have hlen' : (fs.set p.i (pwrite (fs.getD p.i []) p.off (d.take p.len))).length = fs.length := by simp
+    have ih := writeParts_tiles U r (fs.set p.i (pwrite (fs.getD p.i []) p.off (d.take p.len))) (d.drop p.len)
+      (p.i * U + p.off + p.len) y h4 (by rw [hlen']; exact hy) (by simp; omega) hs.2
+    refine ⟨?_, ih.2.1, by rw [ih.2.2, hlen']⟩
+    rw [ih.1, hs.1, h1]
+    have := pwrite_adjacent fs.flatten (d.take p.len) (d.drop p.len) x
+    rw [hc1, List.take_append_drop] at this
+    rw [← h1] at this ⊢
+    exact this
+
+/-- **C16, fixed-size linear composite: a write equals the write into the concatenation**, clipped at the composite's size; the
+    sub-files keep their size. -/
+theorem C16_linear_pwrite (U : Nat) (fs : List Bytes) (hU : ∀ b ∈ fs, b.length = U) (off : Nat) (d : Bytes)
+    (hoff : off < fs.length * U) (hw : Photon.RangeSplit.NoWrap U off (min d.length (fs.length * U - off)))
+    (hd : 0 < d.length) :
+    (linearPwrite U fs off d).1 = some (min d.length (fs.length * U - off)) ∧
+    (linearPwrite U fs off d).2.1.flatten = pwrite (linearFlat fs) off (d.take (min d.length (fs.length * U - off))) ∧
+    (∀ b ∈ (linearPwrite U fs off d).2.1, b.length = U) := by
+  unfold linearPwrite linearFlat
+  simp only [show ¬ off ≥ fs.length * U from by omega, if_false]
+  have hc : (if off + d.length > fs.length * U then fs.length * U - off else d.length) = min d.length (fs.length * U - off) := by
+    split <;> omega
+  rw [hc]
+  have hl : 0 < min d.length (fs.length * U - off) := by omega
+  obtain ⟨_, ht, _⟩ := Photon.RangeSplit.C15_tiling U off _ hw hl
+  have := writeParts_tiles U _ fs (d.take (min d.length (fs.length * U - off))) off _ ht (by omega) (by simp <;> omega) hU
+  simp only [parts]
+  exact ⟨trivial, this.1, this.2.1⟩
+
+
+theorem pread_pwrite_disjoint (g c : Bytes) (a b l : Nat) (h : a + c.length ≤ b ∨ b + l ≤ a) (hg : a + c.length ≤ g.length) :
+    pread (pwrite g a c) b l = pread g b l := by
+  apply List.ext_getElem?
+  intro i
+  rw [get_pread, get_pread]
+  by_cases h1 : i < l
+  · rw [if_pos h1, if_pos h1, get_pwrite]
+    rcases h with h | h
+    · rw [if_neg (by omega), if_neg (by omega)]
+    · rw [if_pos (by omega), if_pos (by omega)]
+  · rw [if_neg h1, if_neg h1]
+
+theorem pread_pwrite_inside (g c : Bytes) (a o S : Nat) (ho : o + c.length ≤ S) (hg : a + S ≤ g.length) :
+    pread (pwrite g (a + o) c) a S = pwrite (pread g a S) o c := by
+  apply List.ext_getElem?
+  intro i
+  have hl : (pread g a S).length = S := by rw [pread_length]; omega
+  have R : (pwrite (pread g a S) o c)[i]? = if i < o then (if i < (pread g a S).length then (pread g a S)[i]? else some 0)
+      else if i < o + c.length then c[i - o]? else (pread g a S)[i]? := get_pwrite _ c o i
+  have P : (pread g a S)[i]? = if i < S then g[a + i]? else none := get_pread g a S i
+  have L : (pread (pwrite g (a + o) c) a S)[i]? = if i < S then (pwrite g (a + o) c)[a + i]? else none := get_pread _ a S i
+  have W : (pwrite g (a + o) c)[a + i]? = if a + i < a + o then (if a + i < g.length then g[a + i]? else some 0)
+      else if a + i < a + o + c.length then c[a + i - (a + o)]? else g[a + i]? := get_pwrite g c (a + o) (a + i)
+  rw [L, R, P, W, hl]
+  by_cases h1 : i < S
+  · by_cases h2 : i < o
+    · have a1 : a + i < a + o := by omega
+      have a2 : a + i < g.length := by omega
+      simp only [h1, h2, a1, a2, if_true]
+    · by_cases h3 : i < o + c.length
+      · have a1 : ¬ a + i < a + o := by omega
+        have a3 : a + i < a + o + c.length := by omega
+        have a4 : a + i - (a + o) = i - o := by omega
+        simp only [h1, h2, h3, a1, a3, a4, if_true, if_false]
+      · have a1 : ¬ a + i < a + o := by omega
+        have a3 : ¬ a + i < a + o + c.length := by omega
+        simp only [h1, h2, h3, a1, a3, if_true, if_false]
+  · have a1 : ¬ i < o := by omega
+    have a3 : ¬ i < o + c.length := by omega
+    simp only [h1, a1, a3, if_false]
+
+theorem getD_set_self (l : List Bytes) (i : Nat) (v : Bytes) (h : i < l.length) : (l.set i v).getD i [] = v := by
+  rw [List.getD_eq_getElem?_getD, List.getElem?_set_self h]; rfl
+
+theorem getD_set_ne (l : List Bytes) (i k : Nat) (v : Bytes) (h : i ≠ k) : (l.set i v).getD k [] = l.getD k [] := by
+  rw [List.getD_eq_getElem?_getD, List.getD_eq_getElem?_getD, List.getElem?_set_ne h]
+
+theorem stripeBlocks_get (S rows : Nat) (fs : List Bytes) (k : Nat) :
+    (stripeBlocks S fs rows)[k]? = if k < fs.length * rows then some (pread (fs.getD (k % fs.length) []) (k / fs.length * S) S) else none := by
+  unfold stripeBlocks
+  rw [List.getElem?_map]
+  by_cases h : k < fs.length * rows
+  · rw [List.getElem?_range h, if_pos h]; rfl
+  · rw [if_neg h, List.getElem?_eq_none (by simp; omega)]; rfl
+
+theorem stripeBlocks_length (S rows : Nat) (fs : List Bytes) : (stripeBlocks S fs rows).length = fs.length * rows := by
+  simp [stripeBlocks]
+
+/-- writing inside stripe `j` (file `j % n`, row `j / n`) changes exactly block `j` of the flat striped view -/
+theorem stripeBlocks_set (S rows : Nat) (fs : List Bytes) (hU : ∀ b ∈ fs, b.length = rows * S)
+    (j o : Nat) (c : Bytes) (hj : j < fs.length * rows) (ho : o + c.length ≤ S) :
+    stripeBlocks S (fs.set (j % fs.length) (pwrite (fs.getD (j % fs.length) []) (j / fs.length * S + o) c)) rows =
+      (stripeBlocks S fs rows).set j (pwrite ((stripeBlocks S fs rows).getD j []) o c) ∧
+    (∀ b ∈ fs.set (j % fs.length) (pwrite (fs.getD (j % fs.length) []) (j / fs.length * S + o) c), b.length = rows * S) := by
+  have hn : 0 < fs.length := by
+    cases hf : fs.length with
+    | zero => rw [hf] at hj; simp at hj
+    | succ m => omega
+  have hjm : j % fs.length < fs.length := Nat.mod_lt j hn
+  have hg : (fs.getD (j % fs.length) []).length = rows * S := by
+    rw [getD_eq fs _ hjm]; exact hU _ (List.getElem_mem hjm)
+  have hrow : j / fs.length < rows := by
+    apply (Nat.div_lt_iff_lt_mul hn).2; rw [Nat.mul_comm]; exact hj
+  have hrowS : j / fs.length * S + S ≤ rows * S := by
+    have : (j / fs.length + 1) * S ≤ rows * S := Nat.mul_le_mul_right S hrow
+    rw [Nat.add_mul, Nat.one_mul] at this; exact this
+  have hblockj : (stripeBlocks S fs rows).getD j [] = pread (fs.getD (j % fs.length) []) (j / fs.length * S) S := by
+    rw [List.getD_eq_getElem?_getD, stripeBlocks_get, if_pos hj]; rfl
+  constructor
+  · apply List.ext_getElem?
+    intro k
+    rw [stripeBlocks_get, List.length_set]
+    by_cases hk : k < fs.length * rows
+    · rw [if_pos hk]
+      by_cases hkj : k = j
+      · subst hkj
+        rw [List.getElem?_set_self (by rw [stripeBlocks_length]; exact hk), getD_set_self _ _ _ hjm, hblockj]
+        congr 1
+        exact pread_pwrite_inside _ c (k / fs.length * S) o S ho (by rw [hg]; exact hrowS)
+      · rw [List.getElem?_set_ne (fun h => hkj h.symm), stripeBlocks_get, if_pos hk]
+        congr 1
+        by_cases hm : k % fs.length = j % fs.length
+        · -- same file, another row: the written region does not touch this stripe
+          rw [hm, getD_set_self _ _ _ hjm]
+          have hdiv : k / fs.length ≠ j / fs.length := by
+            intro hd
+            have h1 := Nat.div_add_mod k fs.length
+            have h2 := Nat.div_add_mod j fs.length
+            rw [hd, hm] at h1; omega
+          apply pread_pwrite_disjoint
+          · rcases Nat.lt_or_gt_of_ne hdiv with h | h
+            · right
+              have : (k / fs.length + 1) * S ≤ j / fs.length * S := Nat.mul_le_mul_right S h
+              rw [Nat.add_mul, Nat.one_mul] at this; omega
+            · left
+              have : (j / fs.length + 1) * S ≤ k / fs.length * S := Nat.mul_le_mul_right S h
+              rw [Nat.add_mul, Nat.one_mul] at this; omega
+          · rw [hg]; omega
+        · rw [getD_set_ne _ _ _ _ (fun h => hm h.symm)]
+    · rw [if_neg hk, List.getElem?_eq_none (by rw [List.length_set, stripeBlocks_length]; omega)]
+  · intro b hb
+    rcases List.mem_or_eq_of_mem_set hb with h | h
+    · exact hU b h
+    · subst h; rw [pwrite_length, hg]; omega
+
+theorem stripeBlocks_len (S rows : Nat) (fs : List Bytes) (hn : 0 < fs.length) (hU : ∀ b ∈ fs, b.length = rows * S) :
+    ∀ b ∈ stripeBlocks S fs rows, b.length = S := by
+  intro b hb
+  simp only [stripeBlocks, List.mem_map, List.mem_range] at hb
+  obtain ⟨j, hj, rfl⟩ := hb
+  have hlt : j % fs.length < fs.length := Nat.mod_lt _ hn
+  have hfile : (fs.getD (j % fs.length) []).length = rows * S := by
+    rw [getD_eq _ _ hlt]; exact hU _ (List.getElem_mem hlt)
+  have hrow : j / fs.length < rows := by
+    apply (Nat.div_lt_iff_lt_mul hn).mpr; rw [Nat.mul_comm]; exact hj
+  rw [pread_length, hfile]
+  have : (j / fs.length + 1) * S ≤ rows * S := Nat.mul_le_mul_right S hrow
+  rw [Nat.add_mul] at this
+  omega
+
+open Photon.RangeSplit in
+/-- writing the parts of a tiling into the stripes one after the other = one write into the flat striped view -/
+theorem writeParts_stripe (S rows n : Nat) (hn : 0 < n) : ∀ (ps : List Sub) (fs : List Bytes) (d : Bytes) (x y : Nat),
+    Tiles S x ps y → y ≤ n * rows * S → d.length = y - x → (∀ b ∈ fs, b.length = rows * S) → fs.length = n →
+    (stripeBlocks S (writeParts (fun j => (j % n, j / n * S)) ps fs d) rows).flatten = pwrite (stripeBlocks S fs rows).flatten x d ∧
+    (∀ b ∈ writeParts (fun j => (j % n, j / n * S)) ps fs d, b.length = rows * S) ∧
+    (writeParts (fun j => (j % n, j / n * S)) ps fs d).length = n
+  | [], fs, d, x, y, h, hy, hd, hU, hl => by
+    simp only [Tiles] at h; subst h
+    have : d = [] := by cases d with | nil => rfl | cons a t => simp at hd
+    subst this
+    simp only [writeParts]
+    have hfl := flatten_length_blocks S (stripeBlocks S fs rows) (stripeBlocks_len S rows fs (by omega) hU)
+    rw [stripeBlocks_length, hl] at hfl
+    exact ⟨(pwrite_nil _ _ (by rw [hfl]; exact hy)).symm, hU, hl⟩
+  | p :: r, fs, d, x, y, h, hy, hd, hU, hl => by
+    simp only [Tiles] at h
+    obtain ⟨h1, h2, h3, h4⟩ := h
+    have hle := Tiles_le S r _ y h4
+    simp only [Sub.lo, Sub.hi] at h1 hle h4
+    have hi : p.i < n * rows := by
+      by_cases hc : p.i < n * rows
+      · exact hc
+      · exfalso
+        have : n * rows * S ≤ p.i * S := Nat.mul_le_mul_right S (by omega)
+        omega
+    have hc1 : (d.take p.len).length = p.len := by simp; omega
+    have hbl := stripeBlocks_len S rows fs (by omega) hU
+    have hset := stripeBlocks_set S rows fs hU p.i p.off (d.take p.len) (by rw [hl]; exact hi) (by omega)
+    rw [hl] at hset
+    have hs := flatten_set_block S (stripeBlocks S fs rows) p.i p.off (d.take p.len) hbl (by rw [stripeBlocks_length, hl]; exact hi) (by omega)
+    simp only [writeParts]
+    have hlen' : (fs.set (p.i % n) (pwrite (fs.getD (p.i % n) []) (p.i / n * S + p.off) (d.take p.len))).length = n := by simp [hl]
+    have ih := writeParts_stripe S rows n hn r (fs.set (p.i % n) (pwrite (fs.getD (p.i % n) []) (p.i / n * S + p.off) (d.take p.len)))
+      (d.drop p.len) (p.i * S + p.off + p.len) y h4 hy (by simp; omega) hset.2 hlen'
+    refine ⟨?_, ih.2.1, ih.2.2⟩
+    rw [ih.1, hset.1, hs.1, h1]
+    have := pwrite_adjacent (stripeBlocks S fs rows).flatten (d.take p.len) (d.drop p.len) x
+    rw [hc1, List.take_append_drop] at this
+    rw [← h1] at this ⊢
+    exact this
+
+/-- **C16, stripe composite: a write equals the write into the flat striped view**, clipped at the composite's size; the
+    sub-files keep their size. -/
+theorem C16_stripe_pwrite (S rows : Nat) (fs : List Bytes) (hn : 0 < fs.length) (hU : ∀ b ∈ fs, b.length = rows * S)
+    (off : Nat) (d : Bytes) (hoff : off < fs.length * rows * S)
+    (hw : Photon.RangeSplit.NoWrap S off (min d.length (fs.length * rows * S - off))) (hd : 0 < d.length) :
+    (stripePwrite S fs rows off d).1 = some (min d.length (fs.length * rows * S - off)) ∧
+    stripeFlat S (stripePwrite S fs rows off d).2.1 rows =
+      pwrite (stripeFlat S fs rows) off (d.take (min d.length (fs.length * rows * S - off))) ∧
+    (∀ b ∈ (stripePwrite S fs rows off d).2.1, b.length = rows * S) := by
+  unfold stripePwrite
+  simp only [show ¬ off ≥ fs.length * rows * S from by omega, if_false]
+  have hc : (if off + d.length > fs.length * rows * S then fs.length * rows * S - off else d.length)
+      = min d.length (fs.length * rows * S - off) := by split <;> omega
+  rw [hc, stripeFlat_eq, stripeFlat_eq]
+  have hl : 0 < min d.length (fs.length * rows * S - off) := by omega
+  obtain ⟨_, ht, _⟩ := Photon.RangeSplit.C15_tiling S off _ hw hl
+  have := writeParts_stripe S rows fs.length hn _ fs (d.take (min d.length (fs.length * rows * S - off))) off _ ht (by omega)
+    (by simp <;> omega) hU rfl
+  simp only [parts]
+  exact ⟨trivial, this.1, this.2.1⟩
+
+
 end Photon.File
